@@ -217,7 +217,7 @@ def rule_b(repo, chk):
         ok = (c._mod.name, repo.qual_of(c)) == (IMPORTS, 'import_module')
         k += 1
         chk.ob('C12.b', ok, c, '_load_builtin_module is called from import_module only')
-    chk.floor('C12.b', k, 2, '(calls of _load_builtin_module)')
+    chk.floor('C12.b', k, 1, '(calls of _load_builtin_module)')
     chk.exhaustive_rules.append('C12.b every call site named load_module/_load_builtin_module in the package')
     # getattr with non-constant names in the sensitive modules (INVENTORY-reflect)
     table = {
@@ -434,7 +434,7 @@ def rule_e(repo, chk):
     chk.floor('C12.e', n, 3, '(find_spec calls)')
     im = repo.find(IMPORTS, 'import_module')
     gi = calls_in(im, 'get_module_info')
-    chk.floor('C12.e', len(gi), 2)
+    chk.floor('C12.e', len(gi), 1)
     for c in gi:
         s = kwarg(c, 'string')
         chk.ob('C12.e', s is not None and norm(s) == 'import_names[-1]', c, 'import_module asks for the last name component only',
